@@ -353,6 +353,14 @@ def _same_kind(a, b) -> bool:
     for attr in ('qubit_index', 'control_qubit_index', 'target_qubit_index', 'qubit_indices', 'acquisition_tag', 'qubit_channel'):
         if hasattr(a, attr) and getattr(a, attr) != getattr(b, attr):
             return False
+    # record fields of detector / observable annotations and coordinate shifts (symbolic ones are copied by reference)
+    for attr in ('last_acquisition_index', 'main_target', 'secondary_target', 'reference_offset', 'secondary_offset', 'space_shift', 'time_shift'):
+        if hasattr(a, attr) or hasattr(b, attr):
+            va, vb = getattr(a, attr, None), getattr(b, attr, None)
+            if (va is None) != (vb is None):
+                return False
+            if va is not vb and not (type(va) in (int, float) and type(vb) in (int, float) and va == vb):
+                return False
     sa, sb = getattr(a, 'duration_strategy', None), getattr(b, 'duration_strategy', None)
     if isinstance(sa, FixedDurationStrategy) and isinstance(sb, FixedDurationStrategy):
         if sa is not sb and not (type(sa.duration) in (int, float) and sa.duration == sb.duration and type(sb.duration) in (int, float)):
